@@ -154,7 +154,7 @@ static Case gen_C16(const GenCtx &ctx) {
       m = g::rng(1025, 2700);
       // mostly few columns (cheap, every table-count band in the last block); sometimes wide, so that a parallel region
       // guarded by a work threshold (rows x remaining words) is still entered with a second chunk per thread
-      n = g::wpick<int>({{4, g::rng(20, 330)}, {1, g::rng(1400, 2400)}, {1, g::rng(4000, 9000)}});
+      n = g::wpick<int>({{3, g::rng(20, 330)}, {1, g::rng(1400, 2400)}, {2, g::rng(4000, 9000)}});
       if (n >= 4000) m = g::rng(1025, 1500);  // very wide: > 64 words remain to the right of most blocks
     }
     c.set("m", m).set("n", n).set("full", g::rng(0, 1));
